@@ -18,7 +18,7 @@ from . import core
 from .core import cq_list, cq_pos
 
 THEOREMS = ["C07a_names", "C07b_prefixes", "C07c_extends_merge", "C07d_rename", "C07_refines_flat",
-            "C07_refines_flat_real", "C07_refuted_definition_order", "C07_refines_flat_example", "C07_refines_extends", "C07_refines_extends_real", "C07_refines_extends_example", "C07_flatten_extends_elems", "C07_refines_partial", "C07_refuted_shadowing", "C07_example"]
+            "C07_refines_flat_real", "C07_refuted_definition_order", "C07_refines_flat_example", "C07_refines_extends", "C07_refines_extends_real", "C07_refines_extends_example", "C07_definition_order_irrelevant_toplevel", "C07_refines_extends_toplevel", "C07_lex_consistent", "C07_refines_extends_packages", "C07_toplevel_is_package_library", "C07_refines_packages_example", "C07_flatten_extends_elems", "C07_refines_partial", "C07_refuted_shadowing", "C07_example"]
 
 ATTRS = ["value", "min", "max", "start", "fixed", "nominal", "unit", "quantity", "displayUnit"]
 BUILTIN = ("Real", "Integer", "String", "Boolean")
